@@ -2,8 +2,15 @@
 from lib import engine, native
 from lib.core import tier
 
-C01_KINDS = {"count", "foreign-edge", "not-simple-cycle", "dependent", "exception", "crash"}
-C02_KINDS = {"returned-weight", "not-minimum", "weight-vector"}
+C01_KINDS = {"count", "foreign-edge", "not-simple-cycle", "dependent", "exception", "crash",
+             "hidden-edge-used", "search-parity", "search-not-a-walk", "phase-not-simple", "phase-parity", "phase-spurious"}
+C02_KINDS = {"returned-weight", "not-minimum", "weight-vector",
+             "search-weight", "search-not-minimum", "search-limit", "search-missed", "phase-missed", "phase-weight",
+             "phase-not-minimum"}
+SEARCH_FUNCS = {"bidirectional_signed_dijkstra": "bounded(E3 search set: every S, hidden chain, limits)",
+                "OddCycleFinder::find": "bounded(E3 search set: every S)"}
+SEARCH_ASSUME = ["signed_dijkstra (unidirectional) is dead code that cannot be instantiated on the pinned tree; not under contract",
+                 "not-found is accepted when some minimum-weight walk of the two-level signed graph repeats an underlying edge (contract K9)"]
 
 
 def filter_kinds(res, kinds, drop_sites=("oracle-self-check",)):
